@@ -293,11 +293,25 @@ fn perform_gc_after_recheck_internal(
   heap.sweep(NUM_SWEEP_UNIT);
 }
 
+#[cfg(samlang_verif)]
+/// verification hook H2: modules marked per GC slice (production value unless a harness lowers it,
+/// so that incremental marking is reachable with small workspaces)
+pub static VERIF_MODULES_PER_SLICE: std::sync::atomic::AtomicUsize =
+  std::sync::atomic::AtomicUsize::new(NUM_MODULE_MARKED_PER_SLICE);
+
 pub(super) fn perform_gc_after_recheck(
   heap: &mut Heap,
   all_modules: &HashMap<ModuleReference, Module<Arc<Type>>>,
   changed_modules: Vec<ModuleReference>,
 ) {
+  #[cfg(samlang_verif)]
+  return perform_gc_after_recheck_internal(
+    heap,
+    VERIF_MODULES_PER_SLICE.load(std::sync::atomic::Ordering::Relaxed),
+    all_modules,
+    changed_modules,
+  );
+  #[cfg(not(samlang_verif))]
   perform_gc_after_recheck_internal(
     heap,
     NUM_MODULE_MARKED_PER_SLICE,
